@@ -347,6 +347,11 @@ func runsFor(prop, tier string) []run {
 				c.Alphabet = []string{"Resize", "W0", "R"}
 				return c
 			}(), pick(3, 4), minutes(pickf(0.5, 3))},
+			// a grow arriving in every gap of a REAL rebuild (real replicas, real rebuild task): the replica that is rebuilding
+			// refuses it and leaves service, or - whatever happens - a replica that ends up promoted reads the whole grown
+			// volume exactly like the source
+			{"rf3-grow-in-every-gap-of-a-real-rebuild", eb.Cfg{RF: 3, N: 3, Alphabet: []string{"RB", "Step", "Grow0"}, Oracles: []string{"c16", "c07", "c04", "c18"}, Drain: true, Real: true,
+				MaxWrites: 2, MaxAdds: 3, InitOps: append(append([]string{}, rw2...), "W:0", "W:0")}, pick(28, 30), minutes(pickf(0.7, 4))},
 		}
 	case "C11rest":
 		mk := func(init []string) eb.Cfg {
